@@ -892,6 +892,7 @@ Section Glue.
     destruct (bucket_facts d b S L HL Hb Hnf ltac:(lia)) as (baseL & EL & EbL & HmodL & HbEL & HEL1 & HEL2 & EscL & EghL & _ & HfullL).
     destruct (bucket_facts d b S R HL Hb Hnf ltac:(lia)) as (baseR & ER & EbR & HmodR & HbER & HER1 & HER2 & EscR & EghR & HnextR & _).
     destruct (HfullL ltac:(lia)) as [EEL HELn].
+    assert (HbL0 : L = 1 -> baseL = 0) by (intros ->; rewrite EbL; reflexivity).
     rewrite <- EbL in *. rewrite <- EbR in *. clear EbL EbR.
     revert HcL1 HcR1 HLb HLRb HRb. generalize (L * b). generalize (R * b). intros Rb Lb HcL1 HcR1 HLb HLRb HRb.
     subst Lb Rb EL.
@@ -904,7 +905,7 @@ Section Glue.
     destruct (search_distinct_spec d b S p HL Hb Hnf Hlen baseR ER HmodR HER1 HER2
                 (N.to_nat (ER - 1 - baseR)) baseR (Datatypes.S (Datatypes.S (N.to_nat (ER - baseR)))) 1
                 (ER - baseR - 1)) as (j' & H1 & H2 & Esd & Hmj' & Hnj'); try lia; auto.
-    rewrite Esd. f_equal.
+    rewrite Esd. f_equal. clear HmodL HmodR EghL EghR EscL EscR Esp Esd Elbb.
     assert (Hhi : j' + 1 = lenN S \/ is_prefix p (snth S (j' + 1)) = false).
     { destruct (N.lt_ge_cases (j' + 1) ER) as [H3|H3]; [right; apply Hnj'; exact H3|].
       assert (j' + 1 = ER) by lia.
@@ -923,8 +924,8 @@ Section Glue.
       rewrite (range_cert S p j j' Hsort ltac:(lia) ltac:(lia) Hmj Hmj').
       + f_equal; lia.
       + destruct (N.eq_dec j baseL) as [->|Hne]; [|right; apply Hprev; lia].
-        destruct HcL as [->|HcL].
-        * left. lia.
+        destruct HcL as [HcL|HcL].
+        * left. apply HbL0. exact HcL.
         * apply pcls_Lt in HcL. destruct HcL as [HcL _]. congruence.
       + exact Hhi.
   Qed.
@@ -941,21 +942,17 @@ Section Glue.
     - (* some header has the prefix *)
       destruct (N.eqb_spec fE 1) as [->|Hf].
       + destruct (N.eq_dec lE 1) as [->|Hl].
-        * apply (same_bucket_case 1); auto; try lia.
-          -- intros j Hj. lia.
-          -- intros Hn. rewrite N.mul_1_l in *.
-             assert (H2 : 2 <= p_buckets d) by (apply (layout_buckets d b S HL Hb 2); [lia|]; replace ((2 - 1) * b) with b by lia; exact Hn).
-             pose proof (HcGt 2 ltac:(lia) H2) as Hc. unfold hcls in Hc.
-             replace ((2 - 1) * b) with b in Hc by lia. exact Hc.
-        * apply (two_bucket_case 1 lE); auto; try lia.
-          -- apply HcEq; lia.
-          -- apply HcEq; lia.
-          -- intros H. apply HcGt; lia.
-      + apply (two_bucket_case (fE - 1) lE); auto; try lia.
-        * right. apply HcLt; lia.
-        * replace (fE - 1 + 1) with fE by lia. apply HcEq; lia.
-        * apply HcEq; lia.
-        * intros H. apply HcGt; lia.
+        * apply (same_bucket_case 1); [lia|exact Hm1|exact Elbb|intros j Hj; lia|].
+          intros Hn. rewrite N.mul_1_l in *.
+          assert (H2 : 2 <= p_buckets d)
+            by (apply (layout_buckets d b S HL Hb 2); [lia|]; replace ((2 - 1) * b) with b by lia; exact Hn).
+          pose proof (HcGt 2 ltac:(lia) H2) as Hc. unfold hcls in Hc.
+          replace ((2 - 1) * b) with b in Hc by lia. exact Hc.
+        * apply (two_bucket_case 1 lE);
+            [lia|lia|lia|exact Elbb|left; reflexivity|apply HcEq; lia|apply HcEq; lia|intros H; apply HcGt; lia].
+      + apply (two_bucket_case (fE - 1) lE);
+          [lia|lia|lia|exact Elbb|right; apply HcLt; lia| |apply HcEq; lia|intros H; apply HcGt; lia].
+        replace (fE - 1 + 1) with fE by lia. apply HcEq; lia.
     - (* no header has the prefix: single candidate bucket R *)
       destruct (N.eq_dec R 0) as [->|HR0].
       + unfold pfc_locate_prefix. rewrite Elbb. cbn [N.ltb N.compare]. f_equal. symmetry.
@@ -972,3 +969,254 @@ Section Glue.
           rewrite N.add_sub in Hc. exact Hc.
   Qed.
 End Glue.
+
+(* ====================================================================== *)
+(* 10. the exported theorems                                               *)
+(* ====================================================================== *)
+(* slightly more general than required: bucket size >= 1, any NUL-free pattern (also the
+   empty one), no bound on the pattern length *)
+Theorem pfc_locate_prefix_spec_gen d b S p :
+  layout_ok d b S -> 1 <= b -> pfc_input S -> nul_free p ->
+  pfc_locate_prefix d p = Some (range_of (spec_prefix_ids S p)).
+Proof.
+  intros HL Hb (Hne & Hnf & Hsort & Hlen & _) Hnp.
+  apply (pfc_locate_prefix_core d b S p); assumption.
+Qed.
+
+(* 1. the limits handed to IteratorDictIDContiguous are (first matching ID, last matching ID),
+      (0,0) when no member starts with p; the memory-error outcome is unreachable *)
+Theorem pfc_locate_prefix_spec d b S p :
+  layout_ok d b S -> 2 <= b -> pfc_input S -> p <> [] -> nul_free p -> lenN p < 2 ^ 32 ->
+  pfc_locate_prefix d p = Some (range_of (spec_prefix_ids S p)).
+Proof. intros HL Hb HS _ Hnp _. apply (pfc_locate_prefix_spec_gen d b S p); auto. lia. Qed.
+
+Corollary pfc_locate_prefix_safe d b S p :
+  layout_ok d b S -> 2 <= b -> pfc_input S -> p <> [] -> nul_free p -> lenN p < 2 ^ 32 ->
+  pfc_locate_prefix d p <> None.
+Proof. intros HL Hb HS Hp Hnp Hl. rewrite (pfc_locate_prefix_spec d b S p); auto. discriminate. Qed.
+
+(* the specification's answer in closed form: S = A ++ M ++ B with M the matching block *)
+Lemma prefix_answer S p : sorted_lt S ->
+  exists A M B, S = A ++ M ++ B /\
+    spec_prefix_ids S p = nrange (1 + lenN A) (length M) /\
+    spec_prefix_strs S p = M /\
+    range_of (spec_prefix_ids S p) =
+      match M with [] => (0, 0) | _ :: M' => (1 + lenN A, 1 + lenN A + lenN M') end.
+Proof.
+  intros Hs. destruct (sorted_prefix_decomp p S Hs) as (A & M & B & E & HA & HM & HB).
+  exists A, M, B. split; [exact E|].
+  assert (Ei : spec_prefix_ids S p = nrange (1 + lenN A) (length M))
+    by (unfold spec_prefix_ids; rewrite E; apply ids_where_decomp; assumption).
+  split; [exact Ei|]. split.
+  - unfold spec_prefix_strs. rewrite E. apply filter_decomp; assumption.
+  - rewrite Ei. destruct M as [|m0 M']; [reflexivity|]. cbn [length]. apply range_of_nrange.
+Qed.
+
+(* 3. the contiguous iterator built from the limits enumerates exactly the matching IDs *)
+Theorem range_ids_spec S p : sorted_lt S -> lenN S < 2 ^ 64 ->
+  contig_ids (fst (range_of (spec_prefix_ids S p))) (snd (range_of (spec_prefix_ids S p))) =
+  spec_prefix_ids S p.
+Proof.
+  intros Hs Hn. destruct (prefix_answer S p Hs) as (A & M & B & E & Ei & _ & Er).
+  rewrite Er, Ei. destruct M as [|m0 M']; [reflexivity|].
+  cbn [fst snd length].
+  assert (Hl : lenN S = lenN A + (1 + lenN M') + lenN B) by (rewrite E, !lenN_app, lenN_cons; lia).
+  rewrite contig_ids_spec by lia. f_equal. unfold lenN. lia.
+Qed.
+
+Theorem pfc_locate_prefix_ids d b S p :
+  layout_ok d b S -> 2 <= b -> pfc_input S -> p <> [] -> nul_free p -> lenN p < 2 ^ 32 ->
+  exists r, pfc_locate_prefix d p = Some r /\ contig_ids (fst r) (snd r) = spec_prefix_ids S p.
+Proof.
+  intros HL Hb HS Hp Hnp Hl. exists (range_of (spec_prefix_ids S p)).
+  split; [apply (pfc_locate_prefix_spec d b S p); assumption|].
+  destruct HS as (_ & _ & Hsort & _ & Hn). apply range_ids_spec; [exact Hsort|].
+  assert (2 ^ 32 < 2 ^ 64) by (apply N.pow_lt_mono_r; lia). lia.
+Qed.
+
+(* the matching IDs form one contiguous ascending range (restated from the specification) *)
+Corollary pfc_locate_prefix_contiguous d b S p :
+  layout_ok d b S -> 2 <= b -> pfc_input S -> p <> [] -> nul_free p -> lenN p < 2 ^ 32 ->
+  exists r, pfc_locate_prefix d p = Some r /\ contiguous (contig_ids (fst r) (snd r)).
+Proof.
+  intros HL Hb HS Hp Hnp Hl.
+  destruct (pfc_locate_prefix_ids d b S p HL Hb HS Hp Hnp Hl) as (r & E1 & E2).
+  exists r. split; [exact E1|]. rewrite E2. apply spec_prefix_ids_contiguous.
+  destruct HS as (_ & _ & Hsort & _). exact Hsort.
+Qed.
+
+(* 4. extractPrefix: NULL when nobody has the prefix, otherwise an iterator that yields
+      exactly the members that have it, in order *)
+Theorem pfc_extract_prefix_spec d b S p :
+  layout_ok d b S -> 2 <= b -> pfc_input S -> p <> [] -> nul_free p -> lenN p < 2 ^ 32 ->
+  pfc_extract_prefix d p =
+  Some (match spec_prefix_strs S p with [] => None | l => Some l end).
+Proof.
+  intros HL Hb HS Hp Hnp Hl. unfold pfc_extract_prefix.
+  rewrite (pfc_locate_prefix_spec d b S p HL Hb HS Hp Hnp Hl).
+  pose proof HS as (_ & _ & Hsort & _ & _).
+  destruct (prefix_answer S p Hsort) as (A & M & B & E & _ & Es & Er).
+  rewrite Er, Es. destruct M as [|m0 M']; [reflexivity|].
+  destruct (N.eqb_spec (1 + lenN A) 0); [lia|].
+  assert (Hlen : lenN S = lenN A + (1 + lenN M') + lenN B) by (rewrite E, !lenN_app, lenN_cons; lia).
+  rewrite (iter_range_spec d b S HL Hb HS (1 + lenN A) (1 + lenN A + lenN M')) by lia.
+  do 2 f_equal.
+  replace (1 + lenN A - 1) with (lenN A) by lia.
+  replace (1 + lenN A + lenN M' - (1 + lenN A) + 1) with (lenN (m0 :: M')) by (rewrite lenN_cons; lia).
+  rewrite E, skipN_app_exact, firstN_app_exact. reflexivity.
+Qed.
+
+(* "nobody has the prefix" in the three equivalent forms *)
+Lemma prefix_none_iff S p :
+  (spec_prefix_strs S p = [] <-> spec_prefix_ids S p = []) /\
+  (spec_prefix_strs S p = [] <-> forall s, In s S -> is_prefix p s = false).
+Proof.
+  unfold spec_prefix_strs, spec_prefix_ids. split.
+  - generalize 1. induction S as [|s S IH]; intros i; cbn [filter ids_where]; [tauto|].
+    destruct (is_prefix p s); [split; discriminate|apply IH].
+  - induction S as [|s S IH]; cbn [filter].
+    + split; [intros _ s []|reflexivity].
+    + destruct (is_prefix p s) eqn:E.
+      * split; [discriminate|]. intros H. rewrite (H s (or_introl eq_refl)) in E. discriminate.
+      * rewrite IH. split.
+        -- intros H u [<-|Hu]; [exact E|apply H; exact Hu].
+        -- intros H u Hu. apply H. right. exact Hu.
+Qed.
+
+Corollary pfc_extract_prefix_none d b S p :
+  layout_ok d b S -> 2 <= b -> pfc_input S -> p <> [] -> nul_free p -> lenN p < 2 ^ 32 ->
+  (forall s, In s S -> is_prefix p s = false) -> pfc_extract_prefix d p = Some None.
+Proof.
+  intros HL Hb HS Hp Hnp Hl Hno. rewrite (pfc_extract_prefix_spec d b S p); auto.
+  rewrite (proj2 (proj2 (prefix_none_iff S p)) Hno). reflexivity.
+Qed.
+
+Corollary pfc_extract_prefix_some d b S p s :
+  layout_ok d b S -> 2 <= b -> pfc_input S -> p <> [] -> nul_free p -> lenN p < 2 ^ 32 ->
+  In s S -> is_prefix p s = true -> pfc_extract_prefix d p = Some (Some (spec_prefix_strs S p)).
+Proof.
+  intros HL Hb HS Hp Hnp Hl Hin Hm. rewrite (pfc_extract_prefix_spec d b S p); auto.
+  destruct (spec_prefix_strs S p) eqn:E; [|reflexivity].
+  rewrite (proj1 (proj2 (prefix_none_iff S p)) E s Hin) in Hm. discriminate.
+Qed.
+
+(* ====================================================================== *)
+(* 11. the dictionary the constructor builds                               *)
+(* ====================================================================== *)
+Theorem pfc_locate_prefix_built S b0 p :
+  pfc_input S -> p <> [] -> nul_free p -> lenN p < 2 ^ 32 ->
+  pfc_locate_prefix (pfc_build b0 S) p = Some (range_of (spec_prefix_ids S p)).
+Proof.
+  intros HS Hp Hnp Hl. apply (pfc_locate_prefix_spec _ (clamp_bsize b0) S); auto.
+  - apply pfc_build_layout_gen.
+  - apply clamp_bsize_ge2.
+Qed.
+
+Theorem pfc_locate_prefix_ids_built S b0 p :
+  pfc_input S -> p <> [] -> nul_free p -> lenN p < 2 ^ 32 ->
+  exists r, pfc_locate_prefix (pfc_build b0 S) p = Some r /\
+            contig_ids (fst r) (snd r) = spec_prefix_ids S p.
+Proof.
+  intros HS Hp Hnp Hl. apply (pfc_locate_prefix_ids _ (clamp_bsize b0) S); auto.
+  - apply pfc_build_layout_gen.
+  - apply clamp_bsize_ge2.
+Qed.
+
+Theorem pfc_extract_prefix_built S b0 p :
+  pfc_input S -> p <> [] -> nul_free p -> lenN p < 2 ^ 32 ->
+  pfc_extract_prefix (pfc_build b0 S) p =
+  Some (match spec_prefix_strs S p with [] => None | l => Some l end).
+Proof.
+  intros HS Hp Hnp Hl. apply (pfc_extract_prefix_spec _ (clamp_bsize b0) S); auto.
+  - apply pfc_build_layout_gen.
+  - apply clamp_bsize_ge2.
+Qed.
+
+(* the bucket size never changes a prefix answer *)
+Corollary pfc_param_indep_prefix S p b0 b1 :
+  pfc_input S -> p <> [] -> nul_free p -> lenN p < 2 ^ 32 ->
+  pfc_locate_prefix (pfc_build b0 S) p = pfc_locate_prefix (pfc_build b1 S) p /\
+  pfc_extract_prefix (pfc_build b0 S) p = pfc_extract_prefix (pfc_build b1 S) p.
+Proof. intros HS Hp Hnp Hl. rewrite !pfc_locate_prefix_built, !pfc_extract_prefix_built by auto. split; reflexivity. Qed.
+
+(* ====================================================================== *)
+(* 12. a concrete instance                                                 *)
+(* ====================================================================== *)
+(* "a" "ab" "aba" "abb" "abc" "abd" "b" "ba" "bab" "bb" "c" "ca"   (12 strings)
+   b = 2: (a ab)(aba abb)(abc abd)(b ba)(bab bb)(c ca)     b = 3: (a ab aba)(abb abc abd)(b ba bab)(bb c ca) *)
+Definition pre_ex_S : list str :=
+  [[97]; [97;98]; [97;98;97]; [97;98;98]; [97;98;99]; [97;98;100];
+   [98]; [98;97]; [98;97;98]; [98;98]; [99]; [99;97]].
+
+(* members and member prefixes: "a" (ids 1..6: three buckets for b = 2, ends on a bucket
+   boundary for b = 2 and b = 3), "ab" (2..6: starts inside a bucket, three buckets for b = 2),
+   "aba" "abb" "abc" "abd" (one string; header or internal depending on b), "b" (7..10: two
+   buckets, ends on a boundary for b = 2), "ba" (8..9: spans the boundary of buckets 4|5 for
+   b = 2, inside one bucket for b = 3), "bab", "bb", "c" (11..12, the last bucket), "ca" (the
+   last string);
+   absent: "0" (below every member), "d" and byte 200 (above every member), "abe" "ac" "az"
+   "baa" "bc" "aa" "cb" (between members), "abab" "caa" (extensions of members) *)
+Definition pre_ex_pats : list str :=
+  [[97]; [97;98]; [97;98;97]; [97;98;98]; [97;98;99]; [97;98;100]; [98]; [98;97]; [98;97;98];
+   [98;98]; [99]; [99;97];
+   [48]; [100]; [200]; [97;98;101]; [97;99]; [97;122]; [98;97;97]; [98;99]; [97;97]; [99;98];
+   [97;98;97;98]; [99;97;97]].
+
+Example pre_ex_input : pfc_input pre_ex_S.
+Proof. apply pfc_input_chk_sound. vm_compute. reflexivity. Qed.
+
+Example pre_ex_pats_ok : Forall (fun p => p <> [] /\ nul_free p /\ lenN p < 2 ^ 32) pre_ex_pats.
+Proof.
+  apply Forall_forall. intros p Hp.
+  repeat (destruct Hp as [<-|Hp]; [split; [discriminate|split; [apply nul_free_chk_sound; reflexivity|reflexivity]]|]).
+  destruct Hp.
+Qed.
+
+(* the model computes, for b = 2 and b = 3 and every pattern of the list, exactly the
+   specification's range ... *)
+Example pre_ex_locate_compute :
+  map (pfc_locate_prefix (pfc_build 2 pre_ex_S)) pre_ex_pats =
+    map (fun p => Some (range_of (spec_prefix_ids pre_ex_S p))) pre_ex_pats /\
+  map (pfc_locate_prefix (pfc_build 3 pre_ex_S)) pre_ex_pats =
+    map (fun p => Some (range_of (spec_prefix_ids pre_ex_S p))) pre_ex_pats /\
+  map (fun p => range_of (spec_prefix_ids pre_ex_S p)) pre_ex_pats =
+    [(1,6); (2,6); (3,3); (4,4); (5,5); (6,6); (7,10); (8,9); (9,9); (10,10); (11,12); (12,12);
+     (0,0); (0,0); (0,0); (0,0); (0,0); (0,0); (0,0); (0,0); (0,0); (0,0); (0,0); (0,0)].
+Proof. vm_compute. repeat split; reflexivity. Qed.
+
+(* ... and the strings / NULL of the specification *)
+Example pre_ex_extract_compute :
+  map (pfc_extract_prefix (pfc_build 2 pre_ex_S)) pre_ex_pats =
+    map (fun p => Some (match spec_prefix_strs pre_ex_S p with [] => None | l => Some l end)) pre_ex_pats /\
+  map (pfc_extract_prefix (pfc_build 3 pre_ex_S)) pre_ex_pats =
+    map (fun p => Some (match spec_prefix_strs pre_ex_S p with [] => None | l => Some l end)) pre_ex_pats /\
+  pfc_extract_prefix (pfc_build 2 pre_ex_S) [98;97] = Some (Some [[98;97]; [98;97;98]]) /\
+  pfc_extract_prefix (pfc_build 3 pre_ex_S) [97;99] = Some None.
+Proof. vm_compute. repeat split; reflexivity. Qed.
+
+Example pre_ex_contig :
+  contig_ids 2 6 = [2; 3; 4; 5; 6] /\ contig_ids 7 7 = [7] /\ contig_ids 0 0 = [] /\
+  contig_ids (2 ^ 64 - 2) (2 ^ 64 - 1) = [2 ^ 64 - 2; 2 ^ 64 - 1].
+Proof. vm_compute. repeat split; reflexivity. Qed.
+
+(* the theorems instantiated on it: the hypotheses are satisfiable, for both bucket sizes *)
+Example pre_ex_theorems : forall b0 p, p <> [] -> nul_free p -> lenN p < 2 ^ 32 ->
+  pfc_locate_prefix (pfc_build b0 pre_ex_S) p = Some (range_of (spec_prefix_ids pre_ex_S p)) /\
+  (exists r, pfc_locate_prefix (pfc_build b0 pre_ex_S) p = Some r /\
+             contig_ids (fst r) (snd r) = spec_prefix_ids pre_ex_S p) /\
+  pfc_extract_prefix (pfc_build b0 pre_ex_S) p =
+    Some (match spec_prefix_strs pre_ex_S p with [] => None | l => Some l end).
+Proof.
+  intros b0 p Hp Hnp Hl. split; [|split].
+  - apply pfc_locate_prefix_built; auto. apply pre_ex_input.
+  - apply pfc_locate_prefix_ids_built; auto. apply pre_ex_input.
+  - apply pfc_extract_prefix_built; auto. apply pre_ex_input.
+Qed.
+
+Example pre_ex_layout :
+  layout_ok (pfc_build 2 pre_ex_S) 2 pre_ex_S /\ layout_ok (pfc_build 3 pre_ex_S) 3 pre_ex_S /\
+  p_buckets (pfc_build 2 pre_ex_S) = 6 /\ p_buckets (pfc_build 3 pre_ex_S) = 4.
+Proof.
+  split; [exact (pfc_build_layout_gen 2 pre_ex_S)|]. split; [exact (pfc_build_layout_gen 3 pre_ex_S)|].
+  split; reflexivity.
+Qed.
